@@ -55,6 +55,7 @@ type Logger interface {
 	Errorf(ctx @{context}.Context, format string, args ...any) error
 	Logf(format string, args ...interface{})
 	Tags(a, b, c string, rest ...string)
+	Logw(aVeryLongParameterNameNumberOne string, aVeryLongParameterNameNumberTwo string, aVeryLongParameterNameNumberThree string, keysAndValues ...any)
 }
 
 // method names that an "exported name" helper would rewrite
@@ -67,6 +68,7 @@ type Init interface {
 // parameters spelled like identifiers the generated body needs
 type Weird interface {
 	W(panic func(v any), nil int, append string) (error string, mock int)
+	OnPanic(Panic, Nil)
 }
 `
 
